@@ -70,6 +70,9 @@ type sys struct {
 	cfg  config
 	c    *memmetrics.RollingCounter
 	ref  refCounter
+	// after Clone the ORIGINAL lives on beside the copy (twin): two counters from then on, each with its own events
+	twin    *memmetrics.RollingCounter
+	twinRef refCounter
 	rc   *memmetrics.RatioCounter
 	a, b refCounter
 }
@@ -113,7 +116,7 @@ func configs(tier string) []config {
 
 func counterModel(cfg config, depth int, rep *lib.Report) *lib.Model[*sys] {
 	adv := advances(cfg.n, cfg.res)
-	ops := []string{"Inc(1)", "Count", "Append(other=2)", "Clone", "Reset"}
+	ops := []string{"Inc(1)", "Count", "Append(other=2)", "Clone", "Reset", "Original.Inc(1)"}
 	nOps := len(ops)
 	for _, d := range adv {
 		ops = append(ops, fmt.Sprintf("Advance(%v)", d))
@@ -146,8 +149,13 @@ func counterModel(cfg config, depth int, rep *lib.Report) *lib.Model[*sys] {
 			s.ref.add(now, 2)
 			return ""
 		case 3:
-			// the copy must count exactly like the original from here on
+			// the copy must count exactly like the original from here on - and the original goes on counting its own events
+			s.twin, s.twinRef = s.c, refCounter{incs: append([]inc(nil), s.ref.incs...)}
 			s.c = s.c.Clone()
+			return ""
+		case 5:
+			s.twin.Inc(1)
+			s.twinRef.add(now, 1)
 			return ""
 		case 4:
 			s.c.Reset()
@@ -156,13 +164,19 @@ func counterModel(cfg config, depth int, rep *lib.Report) *lib.Model[*sys] {
 		default:
 			clock.Advance(adv[op-nOps])
 			s.ref.prune(clock.Now().UTC(), cfg.n, cfg.res)
+			s.twinRef.prune(clock.Now().UTC(), cfg.n, cfg.res)
 			return ""
 		}
 	}
+	m.Enabled = func(s *sys, op int) bool { return op != 5 || s.twin != nil }
 	m.Key = func(s *sys) string {
 		now := clock.Now().UTC()
 		d := lib.Dumper{Now: now}
-		return d.Dump(s.c) + "|" + fmt.Sprint(now.UnixNano()) + "|" + s.ref.key(now)
+		k := d.Dump(s.c) + "|" + fmt.Sprint(now.UnixNano()) + "|" + s.ref.key(now)
+		if s.twin != nil {
+			k += "|twin:" + d.Dump(s.twin) + "|" + s.twinRef.key(now)
+		}
+		return k
 	}
 	m.Check = func(s *sys, hist []int, obs []string, rep *lib.Report) {
 		now := clock.Now().UTC()
@@ -178,6 +192,23 @@ func counterModel(cfg config, depth int, rep *lib.Report) *lib.Model[*sys] {
 			rep.Count("states_after_everything_aged_out")
 		}
 		rep.Outcome(fmt.Sprintf("count=%d", got))
+		if s.twin != nil {
+			rep.Count("states_with_a_clone_and_its_original_alive")
+			tlo, thi := s.twinRef.bounds(now, cfg.n, cfg.res)
+			if tg := s.twin.Count(); tg < tlo || tg > thi {
+				kind := "stale-counted"
+				if tg < tlo {
+					kind = "recent-lost"
+				}
+				rep.Violate(fmt.Sprintf("C17:counter:%s:original-beside-its-clone:%s", kind, resClass(cfg.res)),
+					fmt.Sprintf("the original of a cloned counter: Count()=%d outside [%d,%d] (N=%d r=%v)", tg, tlo, thi, cfg.n, cfg.res),
+					map[string]any{"engine": "xstate", "part": "c17", "model": "counter", "buckets": cfg.n, "resolution_ns": int64(cfg.res),
+						"base_unix_ns": cfg.base.UnixNano(), "ops": m.OpNames(hist), "observed": tg, "expected_lo": tlo, "expected_hi": thi})
+				return
+			}
+			// the read of the original just made must not have disturbed the copy: read it (again) afterwards
+			got = s.c.Count()
+		}
 		if got < lo || got > hi {
 			kind := "stale-counted"
 			if got < lo {
@@ -273,11 +304,11 @@ func Run(tier string, sh lib.Shard, rep *lib.Report) {
 	rep.Bounds["depth_beyond_prepared_state(window filled once)"] = pdepth
 	rep.Bounds["counter_history_depth"] = depth
 	rep.Bounds["ratio_history_depth"] = rdepth
-	rep.Bounds["alphabet_counter"] = "Inc(1) Count Append(other counter holding 2) Clone Reset Advance{r/3,r/2,r,3r/2,(N-1)r,Nr,(N+1)r,2Nr+r/2}; ratio: IncA IncB Ratio Reset Advance{...}"
+	rep.Bounds["alphabet_counter"] = "Inc(1) Count Append(other counter holding 2) Clone(the original lives on beside the copy) Original.Inc(1) Reset Advance{r/3,r/2,r,3r/2,(N-1)r,Nr,(N+1)r,2Nr+r/2}; ratio: IncA IncB Ratio Reset Advance{...}"
 	rep.Bounds["configurations"] = "N in {1,2,3,5,10,16} x r in {1s,1.5s,2s,2.5s,3s,7s,10s,60s} x 4 clock phases"
 	rep.Rule = "breadth-first search over all operation histories up to the depth bound on the real counter; state key = reflective dump of the counter + absolute instant + reference increments still inside N*r (exact key: merges only identical futures); a state is non-trivial when the reference window holds at least one increment"
 	rep.Assume("A2: one API call observes one instant of the frozen clock")
-	rep.Require("states_with_recent_increments", "states_with_boundary_latitude", "states_after_everything_aged_out", "ratio_states_nonempty_window", "ratio_states_empty_window", "prepared_state_searches")
+	rep.Require("states_with_recent_increments", "states_with_a_clone_and_its_original_alive", "states_with_boundary_latitude", "states_after_everything_aged_out", "ratio_states_nonempty_window", "ratio_states_empty_window", "prepared_state_searches")
 	for i, cfg := range configs(tier) {
 		if !sh.Mine(i) {
 			continue
